@@ -20,7 +20,7 @@ LEVEL_TEXT = (
     " (panic!/assert!/unreachable!) reachable from main must be a reviewed ledger entry whose discharging rule holds; the time box"
     " is on every propagation iteration; grammar terminals can only produce text their action converts without failing; byte cuts"
     " of user text are boundary-safe; arithmetic preconditions (C16) and desugaring completeness (C18) are shared; program-wide"
-    " ledgers of fallible indexing and of std calls documented to panic (unwrap/expect with any payload, positional Vec/slice/str methods)."
+    " ledgers of fallible indexing and of std calls documented to panic (unwrap/expect with any payload, positional Vec/slice/str methods).; the directory walk lists a directory once (descent guarded by the set of canonical directories listed so far)."
 )
 NOT_DECIDED = "stack depth on deeply nested input, memory use, implicit bounds / overflow checks and the internals of the generated parser; a ledger entry records a review, it does not prove the site cannot fail."
 TRUSTED = ["rustc MIR and trait resolution (engines/mirfacts)", "call-graph over-approximation: unresolved trait calls widened to every workspace impl, external-trait impls and grammar actions are roots", "reviewed ledger (DESIGN App. A)"]
